@@ -226,28 +226,125 @@ def truncWriteTrace (fd : Nat) (path : String) (chunks : List Bytes) : List Op :
 def unsyncedTrace (fd : Nat) (tmp path : String) (chunks : List Bytes) : List Op :=
   .openF fd tmp true true false false :: (chunks.map (Op.write fd) ++ [.close fd, .rename tmp path])
 
+/-! ### the publication discipline (any trace, any number of writers, failing calls, cleanup)
+
+A trace is *disciplined* w.r.t. `path` when, call by call, in the state reached so far:
+the session file itself is never opened, unlinked or renamed away; no write / truncation goes to
+an inode that `path` is (or, after a power loss, may be) bound to; and whatever is renamed onto
+`path` is clean (fully fsynced) at that moment.  `published` lists the contents so renamed. -/
+
+/-- `path` is, in some directory version that may be on disk, bound to inode `i`. -/
+def guarded (s : FS) (path : String) (i : Nat) : Bool :=
+  (durableDirs s).any fun d => d path == some i
+
+def opOK (s : FS) (path : String) : Op → Bool
+  | .openF _ name _ _ trunc _ =>
+    name ≠ path &&
+      (match s.dir name with
+        | some i => !(trunc && guarded s path i)
+        | none => true)
+  | .openDir _ => true
+  | .write fd _ =>
+    (match s.fds fd with
+      | some ⟨some i, _, _⟩ => !guarded s path i
+      | _ => true)
+  | .ftruncate fd _ =>
+    (match s.fds fd with
+      | some ⟨some i, _, _⟩ => !guarded s path i
+      | _ => true)
+  | .fsync _ => true
+  | .close _ => true
+  | .rename a b =>
+    a ≠ path &&
+      (if b = path then
+        (match s.dir a with
+          | some i => (s.ino i).hist.isEmpty
+          | none => true)
+      else true)
+  | .unlink name => name ≠ path
+  | .other _ => false
+
+def disciplined (path : String) : FS → List Op → Bool
+  | _, [] => true
+  | s, op :: rest => opOK s path op && disciplined path (step s op) rest
+
+/-- Content renamed onto `path` by `op` in state `s`, if any. -/
+def pubOf (s : FS) (path : String) : Op → List Bytes
+  | .rename a b =>
+    if b = path ∧ a ≠ b then
+      (match s.dir a with
+        | some i => [(s.ino i).cur]
+        | none => [])
+    else []
+  | _ => []
+
+def published (path : String) : FS → List Op → List Bytes
+  | _, [] => []
+  | s, op :: rest => pubOf s path op ++ published path (step s op) rest
+
+/-- The failing-call variant of a trace: the first `k` calls succeed, call `k` fails (no effect),
+then the cleanup of `writeFileAtomic`'s deferred function runs (`Close` — a no-op system call-wise
+when the file was already closed — and `Remove`). -/
+def abortTrace (fd : Nat) (tmp : String) (tr : List Op) (k : Nat) (stillOpen : Bool) : List Op :=
+  tr.take k ++ (if stillOpen then [.close fd] else []) ++ [.unlink tmp]
+
 /-! ### `StoreSession` as a call sequence regenerated from the source
 
 `Facts.C31.storeOps` is the ordered list of file-system calls in `FileStorage.StoreSession`
-(with same-package helpers inlined, error branches and `defer` skipped), read from the source
-on every run.  `implTrace` interprets it; the harness compares the strace-observed trace with it.
+(with same-package helpers inlined, error branches and `defer` skipped), each tagged with the
+CLASSES of its operands (`dir-of-path` = `filepath.Dir(path)`, `tmp-file` = what `os.CreateTemp`
+returned, `tmp-name` = its `Name()`, `opened:dir-of-path`, `data`, `path`), read from the source
+on every run.  A temp file created elsewhere, a rename of something else, a partial write are
+different tags and become `Op.other`.  `implTrace` interprets it; the harness compares the strace-observed trace with it.
 -/
 
-def interp (fd dfd : Nat) (tmp path : String) (chunks : List Bytes) : List String → Nat → List Op
-  | [], _ => []
-  | t :: r, cur =>
-    if t = "CreateTemp" then .openF fd tmp true true false false :: interp fd dfd tmp path chunks r fd
-    else if t = "WriteFile" then
-      .openF fd path true false true false :: (chunks.map (Op.write fd) ++ .close fd :: interp fd dfd tmp path chunks r cur)
-    else if t = "Write" then chunks.map (Op.write cur) ++ interp fd dfd tmp path chunks r cur
-    else if t = "Sync" then .fsync cur :: interp fd dfd tmp path chunks r cur
-    else if t = "Close" then .close cur :: interp fd dfd tmp path chunks r cur
-    else if t = "Rename" then .rename tmp path :: interp fd dfd tmp path chunks r cur
-    else if t = "Open" then .openDir dfd :: interp fd dfd tmp path chunks r dfd
-    else .other t :: interp fd dfd tmp path chunks r cur
+def interp (fd dfd : Nat) (tmp path : String) (chunks : List Bytes) : List String → List Op
+  | [] => []
+  | t :: r =>
+    (if t = "CreateTemp:dir-of-path" then [.openF fd tmp true true false false]
+     else if t = "WriteFile:path<data" then
+       .openF fd path true false true false :: (chunks.map (Op.write fd) ++ [.close fd])
+     else if t = "Write:tmp-file<data" then chunks.map (Op.write fd)
+     else if t = "Sync:tmp-file" then [.fsync fd]
+     else if t = "Close:tmp-file" then [.close fd]
+     else if t = "Rename:tmp-name>path" then [.rename tmp path]
+     else if t = "Open:dir-of-path" then [.openDir dfd]
+     else if t = "Sync:opened:dir-of-path" then [.fsync dfd]
+     else if t = "Close:opened:dir-of-path" then [.close dfd]
+     else [.other t]) ++ interp fd dfd tmp path chunks r
 
 def implTrace (fd dfd : Nat) (tmp path : String) (chunks : List Bytes) : List Op :=
-  interp fd dfd tmp path chunks Facts.C31.storeOps fd
+  interp fd dfd tmp path chunks Facts.C31.storeOps
+
+/-! ### error paths: `writeFileAtomic`'s deferred cleanup, regenerated as `Facts.C31.storeCleanup` -/
+
+def cleanupOps (fd : Nat) (tmp : String) (stillOpen : Bool) : List String → List Op
+  | [] => []
+  | t :: r =>
+    (if t = "Close:tmp-file" then (if stillOpen then [.close fd] else [])
+     else if t = "Remove:tmp-name" then [.unlink tmp]
+     else [.other t]) ++ cleanupOps fd tmp stillOpen r
+
+/-- `StoreSession` when its `k`-th file-system call (0-based, `k` before or at the rename) fails:
+the first `k` calls, then the cleanup.  `tmp.Close()` issues a system call only if `Close` was not
+called before. -/
+def implAbortBefore (fd dfd : Nat) (tmp path : String) (chunks : List Bytes) (k : Nat) (stillOpen : Bool) : List Op :=
+  (implTrace fd dfd tmp path chunks).take k ++ cleanupOps fd tmp stillOpen Facts.C31.storeCleanup
+
+def isRename : Op → Bool
+  | .rename _ _ => true
+  | _ => false
+
+/-- `StoreSession` when its `k`-th call fails, anywhere: after the rename failures are ignored
+(best-effort directory sync; a failed `os.Open(dir)` skips the sync). -/
+def implAbort (fd dfd : Nat) (tmp path : String) (chunks : List Bytes) (k : Nat) : List Op :=
+  let tr := implTrace fd dfd tmp path chunks
+  if k ≤ tr.findIdx isRename then
+    implAbortBefore fd dfd tmp path chunks k (!(tr.take (k + 1)).contains (.close fd))
+  else
+    match tr[k]? with
+    | some (.openDir _) => tr.take k
+    | _ => tr.eraseIdx k
 
 /-! ### executable helpers for the driver -/
 
